@@ -17,7 +17,7 @@ from simkit.core import HarnessError
 
 PROP = "C32"
 LEVEL = "fault_enumeration"
-TIERS = {"quick": dict(runs=80, wall=1400, chunk=1), "thorough": dict(runs=400, wall=5400, chunk=1)}
+TIERS = {"quick": dict(runs=100, wall=1400, chunk=1), "thorough": dict(runs=400, wall=5400, chunk=1)}
 TIME_UNIT = "tampered archives parsed (no clock in the code under test)"
 RULE = ("one evaluation = one v1-signed APK with exactly one stored byte altered in the .SF entry or in the signature value / "
         "signed attributes / signer id of its PKCS#7 block, archive rewritten, then APK(raw).get_certificate_der(block); the "
@@ -479,6 +479,15 @@ def invalid_blocks():
 OPT_SHARE = 0.15     # share of the runs that execute in an interpreter started with -O / -OO
 
 
+def generated_blocks():
+    """(archive, block) pairs of the generated archives whose blocks verify (several signers, Ed25519, embedded content, ...)"""
+    out = []
+    for name, sigs in candidates():
+        if name.startswith("gen-") and "forged" not in name:
+            out += [(name, s) for s in sigs]
+    return out
+
+
 def worker(seed):
     """one run; a seeded share of the runs executes in a child interpreter started with -O or -OO (checks written as `assert`
     or under `if __debug__:` do not exist there)"""
@@ -502,15 +511,10 @@ def _worker_here(seed):
     if not cands:
         raise HarnessError("no v1-signed APK in corpus/apksig")
     idx = run_index(seed)
-    inv = invalid_blocks()
-    if idx is not None and idx < len(inv):
-        # sweep: every batch queries every invalid block once (with seeded histories), so that one of them is never
-        # missed by the draw; blocks that do verify after all are handled as ordinary blocks below
-        apk_name, sig_name = inv[idx]
-        p, why = plan(apk_name, sig_name)
-        if p is None and why == "pristine-block-does-not-verify-independently":
-            return invalid_block_case(seed, apk_name, sig_name,
-                                      [c[0] for c in candidates() if c[0].startswith("gen-") and c[0] != apk_name])
+    sweep = invalid_blocks() + generated_blocks()
+    fixed = sweep[idx] if (idx is not None and idx < len(sweep)) else None
+    # sweep: the first runs of every batch take every invalid block and every block of the generated archives once (with
+    # seeded faults and histories), so that a kind of archive is never missed by the draw; the other runs draw
     k = r.random()
     if k < 0.2:                    # the few blocks with signed attributes would otherwise rarely be drawn
         cands = [c for c in cands if "signed-attrs" in c[0]] or cands
@@ -526,6 +530,8 @@ def _worker_here(seed):
         cands = [c for c in cands if "wrong-" in c[0] or "missing-digest" in c[0]] or cands
     apk_name, sigs = r.choice(cands)
     sig_name = r.choice(sigs)
+    if fixed:
+        apk_name, sig_name = fixed
     p, why = plan(apk_name, sig_name)
     base = {"probes": {}, "faults": {}, "units": 0, "nontrivial": False, "sample": None, "case": None, "cases": 0, "extra": {}}
     if p is None and why == "pristine-block-does-not-verify-independently":
